@@ -65,13 +65,17 @@ InRangeStored(leaf, v) == v = Unset \/ InRange(leaf, v)
 Denote ==
   [ t \in { "12", "-3", "1.5", "1e3", "0.25", "True", "[1, 2]", "[[1, 2], [3]]", "(1, 2)", "abc", "'abc'",
             "a b", "1,2", "x_1", "3.0e-1x", "numpy.arange(1, 4)", "numpy.linspace(1, 2, 3)", "range(1, 4)",
-            "numpy.array([0.5, 2.0])", "[1, 2, 4]" } |->
+            "numpy.array([0.5, 2.0])", "[1, 2, 4]", "0", "[0, 5]", "[0.0, 20.0, 0]", "False" } |->
       CASE t = "12"   -> Num(12, 1)
         [] t = "-3"   -> Num(-3, 1)
         [] t = "1.5"  -> Num(3, 2)
         [] t = "1e3"  -> Num(1000, 1)
         [] t = "0.25" -> Num(1, 4)
         [] t = "True" -> Txt("bool:True")
+        [] t = "False" -> Txt("bool:False")
+        [] t = "0"    -> Num(0, 1)
+        [] t = "[0, 5]" -> Txt("list:[0, 5]")
+        [] t = "[0.0, 20.0, 0]" -> Txt("list:[0, 20, 0]")
         [] t = "[1, 2]" -> Txt("list:[1, 2]")
         [] t = "[[1, 2], [3]]" -> Txt("list:[[1, 2], [3]]")
         [] t = "(1, 2)" -> Txt("list:[1, 2]")
